@@ -498,6 +498,8 @@ pub fn generate(stream: &str, tier: &str, seed: u64) -> Vec<String> {
                 let o = DirOpts { epochs: if thorough { 14 } else { 7 }, users: 6, lookups: true, histories: true, audits: true, dumps: false, tombstones: false, proofs: false, hot_user: i % 2 == 0, audit_adv: false, lookup_adv: false, history_adv: false, lag: false };
                 dir_case(&mut rng, if i % 2 == 0 { "wv1" } else { "exp" }, &o, &mut out);
             }
+            // one large publish (thresholds in the parallel label derivation / insertion / preloading)
+            big_batch_case(&mut rng, "exp", 1031, &mut out);
             crate::gen_trie::gen_perm(&mut rng, thorough, &mut out);
         }
         "l1.fault" => gen_fault(&mut rng, thorough, &mut out),
@@ -508,6 +510,10 @@ pub fn generate(stream: &str, tier: &str, seed: u64) -> Vec<String> {
         "l1.sched.flush" => gen_sched_flush(&mut rng, thorough, &mut out),
         "l1.partial" => gen_partial(&mut rng, thorough, &mut out),
         "l1.dir.c01" => {
+            // one LARGE publish per configuration (label derivation and insertion behave differently above thresholds)
+            for cfg in ["wv1", "exp"] {
+                big_batch_case(&mut rng, cfg, if thorough { 2600 } else { 1031 }, &mut out);
+            }
             for i in 0..ncases {
                 let o = DirOpts { epochs: epochs + (i % 3) * 4, users, lookups: false, histories: false, audits: false, dumps: true, tombstones: false, proofs: false, hot_user: i % 2 == 0, audit_adv: false, lookup_adv: false, history_adv: false, lag: false };
                 dir_case(&mut rng, if i % 2 == 0 { "wv1" } else { "exp" }, &o, &mut out);
@@ -1090,4 +1096,48 @@ pub fn gen_sched_flush(rng: &mut Rng, thorough: bool, out: &mut Vec<String>) {
             break;
         }
     }
+}
+
+
+/// a small publish, then ONE publish of `n` new labels together with updates of the existing ones (an odd total, not a
+/// multiple of any power of two), then updates of the first, middle and LAST labels of the big batch; after each: returned
+/// epoch hash, specification root, and lookups of labels at the end of the batch
+fn big_batch_case(rng: &mut Rng, cfg: &str, n: usize, out: &mut Vec<String>) {
+    let rt = rt();
+    out.push(format!("reset {cfg}"));
+    out.push(format!("ck {}", key_hex(&rt)));
+    let labels: Vec<Vec<u8>> = (0..n + 7).map(|i| { let mut b = vec![0xb1, (i >> 8) as u8, i as u8]; b.extend(rng.bytes(2)); b }).collect();
+    for (i, u) in labels.iter().enumerate() {
+        let maxv = if i < 7 || i == 7 + n / 2 || i + 3 >= labels.len() { 3 } else { 1 };
+        for v in 1..=maxv {
+            for fresh in [true, false] {
+                out.push(format!("vrf {} {} {} {}", hex_or_dash(u), if fresh { "F" } else { "S" }, v, show_label(&vrf_label(&rt, cfg, u, fresh, v))));
+            }
+        }
+    }
+    let pairs = |rng: &mut Rng, idx: &[usize]| idx.iter().map(|i| format!("{} {}", hex_or_dash(&labels[*i]), hex_or_dash(&rng.bytes(3)))).collect::<Vec<_>>().join(" ");
+    let first: Vec<usize> = (0..7).collect();
+    out.push(format!("dir.publish {}", pairs(rng, &first)));
+    out.push("spec.root".into());
+    // the big batch: n new labels + 5 updates, shuffled
+    let mut big: Vec<usize> = (7..7 + n).chain(0..5).collect();
+    rng.shuffle(&mut big);
+    out.push(format!("dir.publish {}", pairs(rng, &big)));
+    out.push("dir.epochhash".into());
+    out.push("spec.root".into());
+    let probes = [0usize, 6, 7, 7 + n / 2, labels.len() - 3, labels.len() - 2, labels.len() - 1, big[big.len() - 1], big[big.len() - 2], big[0]];
+    for i in probes {
+        out.push(format!("dir.lookup {}", hex_or_dash(&labels[i])));
+        out.push(format!("spec.lookup {}", hex_or_dash(&labels[i])));
+    }
+    let upd = [0usize, 7 + n / 2, labels.len() - 1, labels.len() - 2, labels.len() - 3];
+    out.push(format!("dir.publish {}", pairs(rng, &upd)));
+    out.push("dir.epochhash".into());
+    out.push("spec.root".into());
+    for i in upd {
+        out.push(format!("spec.lookup {}", hex_or_dash(&labels[i])));
+        out.push(format!("spec.history {} complete", hex_or_dash(&labels[i])));
+    }
+    out.push("dir.audit 1 3".into());
+    out.push("dir.verify.audit 0 3".into());
 }
